@@ -4,7 +4,8 @@
     (Gen/BspFormats_gen.v); the check discharges their boolean premises for today's source by vm_compute. *)
 From Coq Require Import List String NArith ZArith Bool.
 From SV Require Import Bin.LE Bin.Struct Bin.StructProofs Bin.RLE Bin.RLEProofs Bin.FindInsert Bin.FindInsertProofs
-  Fmt.BspFormatsSpec Fmt.BspFormatsProofs.
+  Fmt.BspFormatsSpec Fmt.BspFormatsProofs Fmt.BspVisRow Fmt.BspVisRowProofs Fmt.BspTexStrings Fmt.BspTexStringsProofs
+  Fmt.BspRecords Fmt.BspRecordsProofs Fmt.VmfText Fmt.BspEntLump Fmt.BspEntLumpProofs.
 Import ListNotations.
 
 (** * struct: unpack inverts pack for every format and every fitting record *)
@@ -41,6 +42,37 @@ Theorem c11_lump_formats_agree : forall layouts n appl ralts walts,
   exists r w, alt_fmt lay ra = Some r /\ alt_fmt lay wa = Some w /\ r = w /\ roundtrips r w.
 Proof. exact lump_formats_agree. Qed.
 
+(** The FULL record of a lump (all fields, both sides' orders compared, every layout table it applies to): if the field
+    orders generated from the reader and from the writer pass [record_ok], both sides name the same attribute(s) in every
+    position, the struct format has exactly that many values, all alternatives of both sides use that one format, and for
+    any assignment of values to the labels that fits the format, what is written is read back under the same labels. *)
+Theorem c11_record_roundtrip : forall layouts sts name sname lays rs ws,
+  record_ok layouts sts (name, sname, lays, rs, ws) = true ->
+  rs = ws /\
+  forall lname, In lname lays ->
+  exists lay f n appl ralts walts,
+    stream_named sname sts = Some (n, appl, ralts, walts) /\ In (lname, lay) layouts /\
+    record_fmt layouts sts sname lname = Some f /\ wf_fmt f = true /\ nvalues f = List.length rs /\
+    (forall ra, In ra ralts -> alt_fmt lay ra = Some f) /\ (forall wa, In wa walts -> alt_fmt lay wa = Some f) /\
+    forall field : slot -> value, fits f (map field ws) = true ->
+      exists bs, pack f (map field ws) = Some bs /\ List.length bs = calcsize f /\ unpack f bs = Some (map field rs).
+Proof. exact record_roundtrip. Qed.
+
+(** Attributes that share one integer ([hi << k | lo], read back by [>> k] and [& ((1 << k) - 1)]). *)
+Theorem c11_bitpack_roundtrip : forall k hi lo, (lo < 2 ^ k)%N ->
+  bit_hi k (bitpack k hi lo) = hi /\ bit_lo k (bitpack k hi lo) = lo.
+Proof. exact bitpack_roundtrip. Qed.
+Theorem c11_overlay_bits_roundtrip : forall rs rm ws maxf, overlay_bits_ok (rs, rm, ws) maxf = true ->
+  forall order cnt, (cnt <= maxf)%nat ->
+  let x := bitpack (N.of_nat ws) order (N.of_nat cnt) in
+  bit_hi (N.of_nat rs) x = order /\ bit_lo (N.of_nat rm) x = N.of_nat cnt.
+Proof. exact overlay_bits_roundtrip. Qed.
+Theorem c11_face_prim_bits_roundtrip : forall rmask rflag wmax wflag, face_prim_bits_ok (rmask, rflag, wmax, wflag) = true ->
+  forall cnt (flag : bool), (cnt <= wmax)%N ->
+  let x := N.lor cnt (if flag then wflag else 0%N) in
+  N.land x rmask = cnt /\ (negb (N.land x rflag =? 0)%N) = flag.
+Proof. exact face_prim_bits_roundtrip. Qed.
+
 (** Static props: for a version whose ladder passes prop_ok, both sides use one record of the declared size. *)
 Theorem c11_prop_layout_agree : forall name size rd wr, prop_ok (name, size, rd, wr) = true ->
   exists r w, strs_fmt rd = Some r /\ strs_fmt wr = Some w /\ r = w /\ calcsize w = size /\ roundtrips r w.
@@ -68,6 +100,50 @@ Proof. exact rle_roundtrip. Qed.
 Theorem c11_rle_roundtrip_in_lump : forall pre d rest,
   rle_decode (Some (List.length d)) (List.length pre) (pre ++ rle_encode d ++ flat_map rle_encode rest) = Some d.
 Proof. exact rle_roundtrip_in_lump. Qed.
+
+(** The row size: an expression of the translated language that passes the decision procedure [rowsize_ok]
+    (one more byte per eight clusters, right on 0..7) is ceil(n/8) for EVERY cluster count. *)
+Theorem c11_vis_row_size_all_counts : forall e, rowsize_ok e = true ->
+  forall n : nat, reval e (Z.of_nat n) = Z.of_nat (ceil8 n).
+Proof. exact rowsize_is_ceil8. Qed.
+Theorem c11_vis_row_size_shr3_plus1_refuted :
+  rowsize_ok (RAdd (RShr RVar 3) (RConst 1)) = false /\
+  reval (RAdd (RShr RVar 3) (RConst 1)) 8 = 2%Z /\ ceil8Z 8 = 1%Z /\
+  firstn 3 (rowsize_witnesses (RAdd (RShr RVar 3) (RConst 1))) = [0; 8; 16]%Z.
+Proof. exact rowsize_shr3_plus1_refuted. Qed.
+(** The visibility lump: rows of the length the writer insists on, written back to back after any header, are all
+    read back through their stored offsets by a reader that decodes [er(count)] bytes per row. *)
+Theorem c11_visibility_roundtrip : forall er ew (n : nat) hdr rows,
+  rowsize_ok er = true -> rowsize_ok ew = true ->
+  Forall (fun r => Z.of_nat (List.length r) = reval ew (Z.of_nat n)) rows ->
+  map (fun off => rle_decode (Some (Z.to_nat (reval er (Z.of_nat n)))) off (hdr ++ flat_map rle_encode rows))
+      (vis_offsets (List.length hdr) rows) = map Some rows.
+Proof. exact visibility_roundtrip. Qed.
+
+(** * Texture name string table: every name is read back at its stored offset, whatever storage was shared *)
+Theorem c11_texdata_strings_roundtrip : forall ss sa maxlen win names data offs,
+  texcfg_ok (ss, sa, maxlen, win) = true ->
+  Forall (fun s => nul_free s = true /\ (List.length s <= maxlen)%nat) names ->
+  tex_write ss sa names = (data, offs) ->
+  map (tex_read win data) offs = map Some names.
+Proof. exact texdata_strings_roundtrip. Qed.
+Theorem c11_texdata_search_without_terminator_refuted :
+  tex_write [] [0%N] [[65; 66]; [65]]%N = ([65; 66; 0]%N, [0; 0]%nat) /\
+  tex_read 128 [65; 66; 0]%N 0 = Some [65; 66]%N.
+Proof. exact texdata_search_without_terminator_refuted. Qed.
+
+(** * Entity lump (text layer): with a template that escapes keys, values and the text fields of outputs, every list of
+    well-formed entities (keyvalues and outputs, either separator) is read back exactly by the token loop of the reader.
+    [float_ok] / [int_ok] stand for Python's float() / int() accepting the delay / times text. *)
+Theorem c11_ent_lump_roundtrip : forall float_ok int_ok c sep ents, entcfg_ok c = true -> (sep = ESC \/ sep = COMMA) ->
+  forallb (forallb (item_wf float_ok int_ok sep)) ents = true ->
+  ent_read float_ok int_ok (write_ents c sep ents) = Some ents.
+Proof. exact ent_lump_roundtrip. Qed.
+Theorem c11_ent_raw_key_refuted :
+  ent_read ok_all ok_all (write_ents (Raw, EscML, EscS, [EscS; EscS; EscML; Raw; Raw]) ESC [[IKV [97; 34; 98] [120]]])%N = None /\
+  ent_read ok_all ok_all (write_ents (Raw, EscML, EscS, [EscS; EscS; EscML; Raw; Raw]) ESC [[IKV [97; 92; 110; 98] [120]]])%N
+    = Some [[IKV [97; 10; 98] [120]]]%N.
+Proof. exact ent_raw_key_refuted. Qed.
 
 (** * Index builders *)
 Theorem c11_find_or_insert_sound : forall l ks s' is, fi_run (fi_init l) ks = (s', is) ->
